@@ -838,7 +838,7 @@ class DataType(object):
         elif split_data_type[1] in ['tinyint', 'smallint', 'mediumint', 'int', 'bigint']:
             try:
                 return {'%d' % int(value) for value in values}
-            except (TypeError, ValueError):
+            except (TypeError, ValueError, OverflowError):
                 raise EDXMLEventValidationError(
                     'Invalid integer value in list: "%s"' % '","'.join([repr(value) for value in values])
                 )
